@@ -68,9 +68,20 @@ class EdgeRandom(RandomFacade):
 
 
 # ----------------------------------------------------------------------------- VAM construction (harness side)
+def valid_cluster_id(v) -> bool:
+    """ClusterId ::= INTEGER (0..255)"""
+    return isinstance(v, int) and not isinstance(v, bool) and 0 <= v <= 255
+
+
 def build_vam(spec: dict, decoded: bool) -> dict:
     """VAM dict from a JSON spec.  decoded=True: exactly what the real decoder returns for the encoded message;
     decoded=False: a hand-built dictionary in the style of the repository's unit tests."""
+    # the UPER coder does not range-check: an identifier outside 0..255 would be written as garbage and the harness's own decode
+    # below would fail.  Traffic built by the harness must be valid - a value outside the range here is a harness error by name.
+    for part in ("cluster", "join", "leave"):
+        v = (spec.get(part) or {}).get("id")
+        if v is not None and not valid_cluster_id(v):
+            raise HarnessError(f"build_vam: {part} cluster id {v!r} outside 0..255 (harness traffic must be encodable)")
     vam = {
         "header": {"protocolVersion": 3, "messageId": 16, "stationId": spec["sid"]},
         "vam": {"generationDeltaTime": spec.get("gdt", 0), "vamParameters": {
@@ -113,6 +124,16 @@ def build_vam(spec: dict, decoded: bool) -> dict:
         vam = coder.decode(coder.encode(vam))
         vam["utc_timestamp"] = spec.get("utc", 0)
     return vam
+
+
+class RecordingLdmAdapter:
+    """Stand-in for VRUBasicServiceLDM (swarm knob `ldm`): the reception / transmission management hand every VAM to it."""
+
+    def __init__(self):
+        self.added = 0
+
+    def add_provider_data_to_ldm(self, vam: dict) -> None:
+        self.added += 1
 
 
 def _quiet(fn):
@@ -596,12 +617,19 @@ class SingleSim:
         ref = op.get("cid", 1)
         w = self.watch
         if ref == "target":
-            return w.join["c"] if w.join else op.get("alt", 1)
-        if ref == "joined":
-            return w.passive["cid"] if w.passive else op.get("alt", 1)
-        if ref == "own":
-            return w.prev.cid if (w.prev.ok and w.prev.state is VBSState.VRU_ACTIVE_CLUSTER_LEADER and w.prev.cid is not None) else op.get("alt", 1)
-        return ref
+            v = w.join["c"] if w.join else op.get("alt", 1)
+        elif ref == "joined":
+            v = w.passive["cid"] if w.passive else op.get("alt", 1)
+        elif ref == "own":
+            v = w.prev.cid if (w.prev.ok and w.prev.state is VBSState.VRU_ACTIVE_CLUSTER_LEADER and w.prev.cid is not None) else op.get("alt", 1)
+        else:
+            return ref
+        if not valid_cluster_id(v):
+            # an identifier reported by the code under test that is no ClusterId (judged by the invariants): the harness does not
+            # build traffic from it
+            self.probe("dut-cluster-id-out-of-range")
+            return op.get("alt", 1)
+        return v
 
     def _rx(self, op: dict, own) -> None:
         w = self.watch
@@ -681,13 +709,15 @@ class ClusterNetSim(NetSim):
         def btp_data_request(request):
             if request.destination_port == 2018:
                 sim.vam_tx.append({"t": k.now_us, "st": station.idx, "data": bytes(request.data), "state": watch.prev.state,
-                                   "gen": station.gen, "opc": _quiet(mgr.get_cluster_operation_container)})
+                                   "gen": station.gen, "opc": _quiet(mgr.get_cluster_operation_container),
+                                   "info": _quiet(mgr.get_cluster_information_container), "mstate": _quiet(lambda: mgr.state)})
                 k.record("vam-tx", station.idx, bytes(request.data))
             return orig_req(request)
         station.btp.btp_data_request = btp_data_request
+        ldm = RecordingLdmAdapter() if self.cfg.get("ldm", "none") == "stub" else None     # VRUAwarenessService(ldm=...) is optional
         tx = VAMTransmissionManagement(btp_router=station.btp, vam_coder=coder, device_data_provider=ddp,
-                                       vru_basic_service_ldm=None, clustering_manager=mgr)
-        rx = VAMReceptionManagement(vam_coder=coder, btp_router=station.btp, vru_basic_service_ldm=None, clustering_manager=mgr)
+                                       vru_basic_service_ldm=ldm, clustering_manager=mgr)
+        rx = VAMReceptionManagement(vam_coder=coder, btp_router=station.btp, vru_basic_service_ldm=ldm, clustering_manager=mgr)
         # -- the manager's reception entry point is observed (called by the real reception management)
         orig_on_rx = mgr.on_received_vam
         received: list[dict] = []
@@ -696,6 +726,26 @@ class ClusterNetSim(NetSim):
             received.append({"t": k.now_us, "f": cluster_fields(vam)})
             watch.rx(vam, deliver=orig_on_rx, variant="decoded")
         mgr.on_received_vam = on_received_vam
+        # -- what the station HEARS is observed below the facilities (BTP indication on port 2018, decoded by the harness): the manager
+        #    must be given every VAM that is indicated there
+        heard: list[dict] = []
+        inner_cb = station.btp.pre_indication_callbacks.get(2018)
+
+        def port_2018(indication):
+            try:
+                d = coder.decode(bytes(indication.data))
+            except Exception:               # not a VAM: nothing the manager could be given
+                d = None
+            n0 = len(received)
+            if d is not None:
+                heard.append({"t": k.now_us, "f": cluster_fields(d), "delivered": False})
+            try:
+                return inner_cb(indication)
+            finally:
+                if d is not None:
+                    heard[-1]["delivered"] = len(received) > n0
+        if inner_cb is not None:
+            station.btp.pre_indication_callbacks[2018] = port_2018
         # -- update() calls made by the service itself (location_service_callback) are observed like the application's
         orig_update = mgr.update
         in_watch = [False]
@@ -709,8 +759,8 @@ class ClusterNetSim(NetSim):
             finally:
                 in_watch[0] = False
         mgr.update = update
-        self.fac[station.idx] = {"mgr": mgr, "watch": watch, "tx": tx, "rx": rx, "received": received, "gen": station.gen,
-                                 "silent": False, "joins": []}
+        self.fac[station.idx] = {"mgr": mgr, "watch": watch, "tx": tx, "rx": rx, "received": received, "heard": heard, "gen": station.gen,
+                                 "silent": False, "joins": [], "ldm": ldm, "breakups": []}
 
     def on_gnss(self, station: Station, tpv: dict) -> None:
         fac = self.fac.get(station.idx)
@@ -729,6 +779,10 @@ class ClusterNetSim(NetSim):
             self.loc_errors.append({"t": k.now_us, "st": station.idx, "exc": e, "state": st_before,
                                     "opc": _quiet(fac["mgr"].get_cluster_operation_container),
                                     "info": _quiet(fac["mgr"].get_cluster_information_container)})
+        # what the manager reports once the callback is over (no virtual time passes inside it): the containers a VAM emitted by this
+        # callback was built from
+        o = fac["watch"].prev
+        rep["after"] = {"state": o.state, "tx": o.tx, "opc": o.opc, "cid": o.cid} if o.ok else None
 
     def custom_op(self, idx: int, op: dict, rec: dict) -> None:
         kind = op["op"]
@@ -745,7 +799,7 @@ class ClusterNetSim(NetSim):
                 rec["result"] = w.call("try_create", lat, lon)
             elif call == "join_advertised":
                 # the application joins a cluster it has seen advertised in a received VAM (most recent one)
-                adv = [r for r in fac["received"] if r["f"]["has_info"] and r["f"]["cid"] is not None
+                adv = [r for r in fac["heard"] if r["f"]["has_info"] and r["f"]["cid"] is not None
                        and r["t"] >= self.kernel.now_us - 2_000_000]
                 if not adv:
                     rec["skipped"] = True
@@ -761,7 +815,15 @@ class ClusterNetSim(NetSim):
             elif call == "leave":
                 w.call("leave", ClusterLeaveReason[op.get("reason", "NOT_PROVIDED")])
             elif call == "breakup":
+                cid_before = w.prev.cid if w.prev.ok and w.prev.state is VBSState.VRU_ACTIVE_CLUSTER_LEADER else None
                 rec["result"] = w.call("breakup", ClusterBreakupReason[op.get("reason", "NOT_PROVIDED")])
+                if rec["result"] is True and cid_before is not None:
+                    # members at this instant (public API of their managers): they are owed the announcement
+                    members = [i for i, f2 in sorted(self.fac.items()) if i != st.idx and f2["watch"].prev.ok
+                               and f2["watch"].prev.state is VBSState.VRU_PASSIVE and f2["watch"].prev.cid == cid_before
+                               and f2["watch"].passive is not None and f2["watch"].passive.get("leader") == st.spec["station_id"]]
+                    fac["breakups"].append({"t": self.kernel.now_us, "idx": idx, "cid": cid_before, "members": members,
+                                            "reason": ClusterBreakupReason[op.get("reason", "NOT_PROVIDED")].value})
             elif call == "update":
                 w.call("update", lat, lon, 1.0, 0.0)
             elif call in ("role_on", "role_off", "cancel_join", "join_failed"):
